@@ -1423,17 +1423,7 @@ class Stmts(Calls):
         lb = z3.Length(base)
         body1 = z3.substitute(body, (nth, base[i]))
         body2 = z3.substitute(z3.substitute(body, (nth, x)), (i, lb))
-        # the list must not be read at any other position of the body through i (checked: after substitution no nth(c, .) on i)
-        def mentions(e_, memo={}):
-            k = e_.get_id()
-            if k in memo:
-                return memo[k]
-            r = (z3.is_app_of(e_, z3.Z3_OP_SEQ_NTH) and e_.arg(0).eq(c)) or (z3.is_app(e_) and any(mentions(ch) for ch in e_.children())) \
-                or (z3.is_quantifier(e_) and mentions(e_.body()))
-            memo[k] = r
-            return r
-        if mentions(body1):
-            return None
+        # (other reads of the list in the body are untouched: only L[i] is rewritten, under what is known about i)
         r1 = z3.And(i >= 0, i < lb)
         if fname == 'all':
             return z3.And(z3.ForAll([i], z3.Implies(r1, body1)), body2)
